@@ -1,6 +1,6 @@
 (* Property C11 — cache serialization is faithful (binary layer).  Statements only. *)
 From Coq Require Import ZArith List String Bool.
-From C11 Require Import Prim Schema Tables ProofsPrim ProofsSchema Json ProofsJson Types ProofsTypes ProofsGen.
+From C11 Require Import Prim Schema Tables ProofsPrim ProofsSchema Json ProofsJson Types ProofsTypes ProofsMono ProofsGen.
 From Gen Require Import Schemas.
 Import ListNotations.
 Open Scope Z_scope.
@@ -122,6 +122,12 @@ Theorem type_roundtrip : forall n t bs rest,
   write_type json_write n t = Some bs -> wf_type n t = true -> read_type json_read n (bs ++ rest) = Some (t, rest).
 Proof. exact closed_type. Qed.
 Print Assumptions type_roundtrip.
+
+(* fuel is only a bound on nesting depth: written with any sufficient n, read back with any m >= n *)
+Theorem type_roundtrip_any_fuel : forall n m t bs rest, (n <= m)%nat ->
+  write_type json_write n t = Some bs -> wf_type n t = true -> read_type json_read m (bs ++ rest) = Some (t, rest).
+Proof. exact type_rt_any_fuel. Qed.
+Print Assumptions type_roundtrip_any_fuel.
 
 (* a whole cache data file: MypyFile.read (MypyFile.write tree) = tree *)
 Theorem data_file_roundtrip : forall n fs bs rest,
